@@ -3,7 +3,7 @@
 import sys, json, re, glob, os
 rows=[]
 for line in open(sys.argv[1]):
-    m=re.match(r'(\S+) \[(\w+)\] fired: (.*)$', line.strip())
+    m=re.match(r'(\S+) \[(\w+)\] fired: ?(.*)$', line.strip())
     if not m: continue
     sid, mark, fired = m.groups()
     fired=re.sub(r'PATCH-DOES-NOT-APPLY.*','(patch does not apply)',fired).strip()
